@@ -5,6 +5,7 @@
 (* STRUCT Bound = enum Included | Excluded | Unbounded *)
 (* STRUCT CheckSummer = {sum: u32} *)
 (* STRUCT Complement = (A) *)
+(* STRUCT DynamicLevenshtein = {query: String, dist: usize} *)
 (* STRUCT Fst = {meta: Meta, data: D} *)
 (* STRUCT Intersection = (A, B) *)
 (* STRUCT Output = (u64) *)
@@ -666,6 +667,54 @@ Definition src_fn_Ref_will_always_match (T : src_aut) (state : src_St T) : bool 
 
 Definition src_fn_Ref_accept (T : src_aut) (state : src_St T) (byte : N) : src_St T :=
   (src_accept T state byte).
+
+Definition src_fn_DynamicLevenshtein_start (self_query : list N) (self_dist : N) : res (list N) :=
+  do t <- (if (((len self_query) + 1) <=? 18446744073709551615)
+    then (Ok ((len self_query) + 1))
+    else Panic);
+  Ok (src_range 0 t).
+
+Definition src_fn_DynamicLevenshtein_is_match (self_query : list N) (self_dist : N) (state : list N) : bool :=
+  (match (match (last_opt state) with Some n => Some (n <=? self_dist) | None => None end) with Some x => x | None => false end).
+
+Definition src_fn_DynamicLevenshtein_can_match (self_query : list N) (self_dist : N) (state : list N) : bool :=
+  (match (match (src_list_min state) with Some n => Some (n <=? self_dist) | None => None end) with Some x => x | None => false end).
+
+Definition src_fn_DynamicLevenshtein_accept (self_query : list N) (self_dist : N) (state : list N) (chr : option N) : res (list N) :=
+  do t <- (if (0 <? (len state))
+    then (Ok 0)
+    else Panic);
+  do t_1 <- (if (((List.nth (N.to_nat t) state 0) + 1) <=? 18446744073709551615)
+    then (Ok ((List.nth (N.to_nat t) state 0) + 1))
+    else Panic);
+  let next := [t_1] in
+  do t_16 <- (fold_left (fun src_acc src_e => do next_3 <- src_acc; let '(i_1, c_1) := src_e in let cost_1 := (if (src_opt_eqb (Some c_1) chr)
+      then 0
+      else 1) in
+      do t_9 <- (if (i_1 <? (len next_3))
+        then (Ok i_1)
+        else Panic);
+      do t_10 <- (if (((List.nth (N.to_nat t_9) next_3 0) + 1) <=? 18446744073709551615)
+        then (Ok ((List.nth (N.to_nat t_9) next_3 0) + 1))
+        else Panic);
+      do t_11 <- (if ((i_1 + 1) <? (len state))
+        then (Ok (i_1 + 1))
+        else Panic);
+      do t_12 <- (if (((List.nth (N.to_nat t_11) state 0) + 1) <=? 18446744073709551615)
+        then (Ok ((List.nth (N.to_nat t_11) state 0) + 1))
+        else Panic);
+      do t_13 <- (if (i_1 <? (len state))
+        then (Ok i_1)
+        else Panic);
+      do t_14 <- (if (((List.nth (N.to_nat t_13) state 0) + cost_1) <=? 18446744073709551615)
+        then (Ok ((List.nth (N.to_nat t_13) state 0) + cost_1))
+        else Panic);
+      let v_1 := (N.min (N.min t_10 t_12) t_14) in
+      do t_15 <- (if ((self_dist + 1) <=? 18446744073709551615)
+        then (Ok (self_dist + 1))
+        else Panic);
+      Ok (next_3 ++ [(N.min v_1 t_15)])) (src_enumerate self_query) (Ok next));
+  Ok t_16.
 
 Definition src_fn_Slot_partial_cmp (self_idx : N) (self_input : list N) (self_output other_idx : N) (other_input : list N) (other_output : N) : option comparison :=
   (Some (CompOpp (match (lex_cmp self_input other_input) with Eq => (N.compare self_output other_output) | src_c => src_c end))).
